@@ -79,6 +79,32 @@ static void check_case(int d, const std::vector<double>& E, double t, const Alph
   }
 }
 
+// Tr[A(t1) B(t2)] with both factors still unevaluated results of Evolve (same and different operator objects, both forms)
+static void check_products(int d, const std::vector<double>& E, const Alpha& al) {
+  const ref::Basis& B = ref::basis(d);
+  SU_vector H = mkvec(d, B.proj(ref::diag(E))), H2 = H;
+  double Emax = 0; for (double e : E) Emax = std::max(Emax, std::fabs(e));
+  size_t n = al.vecs.size();
+  const double TT[] = {0, 0.3, -2.5, 7};
+  for (double t1 : TT) for (double t2 : TT) for (size_t i = n - 3; i < n; i++) {
+    size_t j = (i + 1 < n) ? i + 1 : n - 3;
+    count("evaluations");
+    SU_vector A = mkvec(d, al.vecs[i]), C = mkvec(d, al.vecs[j]);
+    Mat A1 = B.tomat(evolve_ref(B, al.mats[i], E, t1)), C2 = B.tomat(evolve_ref(B, al.mats[j], E, t2));
+    double want = ref::trace(A1 * C2).real();
+    double tol = (64 + 32 * (std::fabs(t1) + std::fabs(t2)) * Emax * d) * d * d * ref::EPS * maxabs(al.vecs[i]) * maxabs(al.vecs[j]);
+    std::vector<double> b1(d * (d - 1)), b2(d * (d - 1)); H.PrepareEvolve(b1.data(), t1); H.PrepareEvolve(b2.data(), t2);
+    double g[6];
+    g[0] = A.Evolve(H, t1) * C.Evolve(H, t2);            // same operator object on both sides
+    g[1] = A.Evolve(H, t1) * C.Evolve(H2, t2);           // equal operators, distinct objects
+    g[2] = A.Evolve(b1.data()) * C.Evolve(b2.data());
+    g[3] = A.Evolve(H, t1) * C.Evolve(b2.data());
+    { SU_vector c2 = C.Evolve(H, t2); g[4] = A.Evolve(H, t1) * c2; SU_vector a1 = A.Evolve(H, t1); g[5] = a1 * C.Evolve(H, t2); }
+    const char* nm[6] = {"proxy(H,t1)*proxy(H,t2)", "proxy(H,t1)*proxy(H',t2)", "proxy(buf1)*proxy(buf2)", "proxy(H,t1)*proxy(buf2)", "proxy*vector", "vector*proxy"};
+    for (int q = 0; q < 6; q++) if (!(std::fabs(g[q] - want) <= tol)) violation(std::string("Evolve:scalar-product-of-unevaluated-results:") + nm[q] + ":d=" + std::to_string(d), J().i("d", d).arr("spectrum", E).num("t1", t1).num("t2", t2).num("got", g[q]).num("want", want).done());
+  }
+}
+
 static void check_group(int d, const std::vector<double>& E, const std::vector<double>& T, const Alpha& al) {
   const ref::Basis& B = ref::basis(d);
   SU_vector H = mkvec(d, B.proj(ref::diag(E)));
@@ -115,6 +141,7 @@ int main(int argc, char** argv) {
       std::vector<double> E(d); long long c = code; for (int i = 0; i < d; i++) { E[i] = lev[c % L]; c /= L; }
       for (double t : T) check_case(d, E, t, al, true);
       if (code % 7 == 0 || th) check_group(d, E, std::vector<double>{0, 0.3, -2.5, 7}, al);
+      if (code % 7 == 0 || th) check_products(d, E, al);
     }
     // "large" and incommensurate spectra
     std::vector<std::vector<double>> special;
